@@ -34,6 +34,7 @@ func runBigDir(env *Env) error {
 		top := filepath.Join(base, fmt.Sprintf("w%d", i))
 		big := &WNode{Name: "big", Dir: true, MTime: 1500000900}
 		want := map[string]int64{}
+		var links [][2]string
 		for k := 0; k < n; k++ {
 			nm := fmt.Sprintf("e%05d%s", k, strings.Repeat("x", k%9))
 			sz := k % 4
@@ -42,6 +43,14 @@ func runBigDir(env *Env) error {
 				want[nm] = -2
 				continue
 			}
+			if k%97 == 50 && n >= 2 { // a symbolic link to a file of one byte: listed as that file
+				links = append(links, [2]string{nm, "e00001x"})
+				want[nm] = 1
+				continue
+			}
+			if k%97 == 13 { // next to it a link to nothing: omitted from every listing
+				links = append(links, [2]string{nm + "_gone", "no-such-target"})
+			}
 			big.Kids = append(big.Kids, &WNode{Name: nm, MTime: 1400000000 + int64(k%7), Content: Content{{Kind: 'g', N: sz, A: k}}})
 			want[nm] = int64(sz)
 		}
@@ -49,6 +58,12 @@ func runBigDir(env *Env) error {
 		if err := w.Materialise(top); err != nil {
 			return err
 		}
+		for _, l := range links {
+			if err := os.Symlink(l[1], filepath.Join(top, "R", "big", l[0])); err != nil {
+				return err
+			}
+		}
+		env.Count("links", fmt.Sprint(len(links)))
 		reqs := []*Req{{Op: opOpenDir, Path: "/big"}, {Op: opReadDir}, {Op: opStatFile, Path: "/probe"}, {Op: opOpenDir, Path: "/big"}}
 		v2 := env.Rnd.Intn(2) == 0
 		for k := 0; k < n+1; k++ {
